@@ -154,6 +154,56 @@ def _mentions_value(e: ast.AST, tainted: Set[str]) -> bool:
     return False
 
 
+def _canonical_cmp(f, hit: ast.AST) -> str:
+    """the comparison with its local names replaced by where they come from, so that the finding is the same finding after a
+    rename or a hoist: a loop / comprehension variable is `elem(<what is iterated>)`, a local bound once to an attribute chain
+    is that chain"""
+    origin: Dict[str, str] = {}
+    counts: Dict[str, int] = {}
+
+    def bind(target, it):
+        if isinstance(target, ast.Name):
+            origin[target.id] = f"elem({norm(it)})"
+        elif isinstance(target, (ast.Tuple, ast.List)) and isinstance(it, ast.Call) and isinstance(it.func, ast.Name) and it.func.id == "zip" and len(it.args) == len(target.elts):
+            for t, a in zip(target.elts, it.args):
+                bind(t, a)
+
+    # loop / comprehension variables: the bindings that enclose the comparison, innermost first
+    def bind_outer(target, it):
+        before = dict(origin)
+        bind(target, it)
+        for k, v in before.items():
+            origin[k] = v
+
+    for a in ancestors(hit):
+        if isinstance(a, (ast.ListComp, ast.SetComp, ast.GeneratorExp, ast.DictComp)):
+            for g in reversed(a.generators):
+                bind_outer(g.target, g.iter)
+        elif isinstance(a, (ast.For, ast.AsyncFor)):
+            bind_outer(a.target, a.iter)
+        if a is f.node:
+            break
+    loops = set(origin)
+    for x in ast.walk(f.node):
+        if isinstance(x, ast.Assign) and len(x.targets) == 1 and isinstance(x.targets[0], ast.Name):
+            nm = x.targets[0].id
+            counts[nm] = counts.get(nm, 0) + 1
+            v = x.value
+            root = v
+            while isinstance(root, ast.Attribute):
+                root = root.value
+            if isinstance(v, ast.Attribute) and isinstance(root, ast.Name) and nm not in loops:
+                origin[nm] = norm(v)
+    origin = {k: v for k, v in origin.items() if k in loops or counts.get(k, 0) <= 1}
+    import copy
+
+    h = copy.deepcopy(hit)
+    for x in ast.walk(h):
+        if isinstance(x, ast.Name) and x.id in origin:
+            x.id = origin[x.id]
+    return " ".join(norm(h).split())
+
+
 def _is_tokenish(e: ast.AST) -> bool:
     s = norm(e)
     return "_token_of_node" in s or "token" in s.lower()
@@ -241,7 +291,7 @@ def end_no_usercmp(repo: Repo, rep):
                     f,
                     hit,
                     f"{f.qualname} re-runs the user comparison `{short(hit, 50)}` at session end, outside any try: a comparison that raised inside the test (e.g. `5 <= snapshot('a')`) raises again here -> INTERNALERROR",
-                    construct=hit,
+                    construct=_canonical_cmp(f, hit),
                 )
     rep.floor("R-END-NO-USERCMP", "user comparisons in session-end code", n, 1)
 
@@ -353,23 +403,30 @@ def nonoverlap(repo: Repo, rep):
         "replacement list dominate their application",
     )
     cg = callgraph(repo)
-    f = repo.func("_rewrite_code.py::Change._replace")
-    cfg = cfg_of(f)
-    apps = [n for n in cfg.live for c in node_calls(n) if isinstance(c.func, ast.Attribute) and c.func.attr in ("append", "extend", "insert") and "replacements" in norm(c.func.value)]
-    chk = [n for n in cfg.live for c in node_calls(n) if isinstance(c.func, ast.Attribute) and c.func.attr == "_check"]
-    rep.floor("R-NONOVERLAP", "appends to replacements", len(apps), 1)
-    for a in apps:
-        if chk and must_reach(cfg, a, chk, [cfg.ret], skip_labels=("exc",)):
-            rep.ok("R-NONOVERLAP", f, a.ast, "_check() after the append")
-        else:
-            rep.violation("R-NONOVERLAP", f, a.ast, "a replacement is recorded without the non-overlap check", construct="append")
-    # any other function appending to `.replacements`
+    # the recording step is found by what it does (a method of Change that appends to `<source>.replacements`), not by its name
+    def _is_app(c):
+        return isinstance(c, ast.Call) and isinstance(c.func, ast.Attribute) and c.func.attr in ("append", "extend", "insert") and "replacements" in norm(c.func.value)
+
+    total = 0
     for g in repo.pkg_funcs():
-        if g.key == f.key:
+        if not any(_is_app(c) for c in body_nodes(g.node)):
             continue
-        for c in body_nodes(g.node):
-            if isinstance(c, ast.Call) and isinstance(c.func, ast.Attribute) and c.func.attr in ("append", "extend", "insert") and norm(c.func.value).endswith(".replacements"):
-                rep.violation("R-NONOVERLAP", g, c, f"{g.qualname} appends to a replacement list outside Change._replace (no overlap check)", construct="foreign-append")
+        owner = g.module.rel == "_rewrite_code.py" and g.cls is not None and g.cls.name == "Change"
+        if not owner:
+            for c in body_nodes(g.node):
+                if _is_app(c) and norm(c.func.value).endswith(".replacements"):
+                    rep.violation("R-NONOVERLAP", g, c, f"{g.qualname} appends to a replacement list outside class Change (no overlap check)", construct="foreign-append")
+            continue
+        cfg = cfg_of(g)
+        apps = [n for n in cfg.live for c in node_calls(n) if _is_app(c)]
+        chk = [n for n in cfg.live for c in node_calls(n) if isinstance(c.func, ast.Attribute) and c.func.attr == "_check"]
+        total += len(apps)
+        for a in apps:
+            if chk and must_reach(cfg, a, chk, [cfg.ret], skip_labels=("exc",)):
+                rep.ok("R-NONOVERLAP", g, a.ast, "_check() after the append")
+            else:
+                rep.violation("R-NONOVERLAP", g, a.ast, "a replacement is recorded without the non-overlap check", construct="append")
+    rep.floor("R-NONOVERLAP", "appends to replacements", total, 1)
     g = repo.func("_rewrite_code.py::SourceFile.new_code")
     gcfg = cfg_of(g)
     appl = [n for n in gcfg.live for c in node_calls(n) if norm(c.func).endswith("util.replace") or norm(c.func) == "replace"]
@@ -684,11 +741,23 @@ def nested_drop(repo: Repo, rep):
             if any(is_containment(t) for t in tg):
                 # the set handed over is built from the Replace/Delete changes
                 ok_set = False
+                set_name = None
                 if len(e.args) > 1 and isinstance(e.args[1], ast.Name):
+                    set_name = e.args[1].id
+                else:
+                    # the test is a closure of apply_all: the set is the local it reads in its membership test
+                    for t in tg:
+                        if not is_containment(t) or t.node not in list(ast.walk(f.node)):
+                            continue
+                        bound = set(t.params) | {x.id for x in body_nodes(t.node) if isinstance(x, ast.Name) and isinstance(x.ctx, ast.Store)}
+                        for x in body_nodes(t.node):
+                            if isinstance(x, ast.Compare) and any(isinstance(o, ast.In) for o in x.ops) and isinstance(x.comparators[0], ast.Name) and x.comparators[0].id not in bound:
+                                set_name = x.comparators[0].id
+                if set_name is not None:
                     good_defs = []
-                    ds_ = reaching_defs(cfg, c, e.args[1].id)
+                    ds_ = reaching_defs(cfg, c, set_name)
                     for d in ds_:
-                        dv = def_value(d, e.args[1].id)
+                        dv = def_value(d, set_name)
                         # built from the Replace/Delete changes of the very list this call applies (the function's own parameter)
                         if dv is not None and "Replace" in norm(dv) and "Delete" in norm(dv) and ".node" in norm(dv) and any(isinstance(g_, ast.comprehension) and norm(g_.iter) == f.params[0] for g_ in ast.walk(dv)):
                             good_defs.append(d)
@@ -696,13 +765,13 @@ def nested_drop(repo: Repo, rep):
 
                     # every definition qualifies and one of them lies on every path (a parameter / default that by-passes them
                     # would carry a set computed from some other list of changes)
-                    ok_set = bool(good_defs) and len(good_defs) == len(ds_) and _nd(cfg, good_defs, c) and e.args[1].id not in f.params
+                    ok_set = bool(good_defs) and len(good_defs) == len(ds_) and _nd(cfg, good_defs, c) and set_name not in f.params
                     if good_defs and not ok_set:
                         rep.violation(
                             "R-NESTED-DROP",
                             f,
                             e,
-                            f"the set of removed nodes `{e.args[1].id}` can come from outside apply_all (a parameter / an earlier computation) instead of the list of changes this call applies: "
+                            f"the set of removed nodes `{set_name}` can come from outside apply_all (a parameter / an earlier computation) instead of the list of changes this call applies: "
                             "a change of a category that is NOT applied (an unapproved update of the parent) then hides the approved change of a nested snapshot()",
                             construct="removed-set-foreign",
                         )
